@@ -55,6 +55,7 @@ type rcptMsg struct {
 	respID    string
 	cmppBody  *cmpp.SubPduDeliveryContent
 	rcptFirst bool
+	text      string // the receipt text as it travels
 }
 
 var rcptTokens = []string{"id:", "sub:", "dlvrd:", "stat:", "err:", "text:", "Sub:", "Dlvrd:", "Submit_Date:", "Done_Date:", "Stat:", "Err:", "Text:"}
@@ -321,10 +322,17 @@ func runReceipts(r *core.Run) {
 			if len(text) > 255 {
 				text = text[:255]
 			}
-			outs = append(outs, out{&smpp34.DeliverSm{Header: smpp.Header{ID: smpp.DELIVER_SM, Sequence: m.seq + 5000}, ESMClass: 4, SourceAddr: "8613800000000",
+			// esm_class: bits 5..2 = 0001 say "SMSC delivery receipt"; messaging mode (bits 1..0) and the feature bits 7..6 are the SMSC's business
+			esm := uint8(4)
+			if c.Prob(1, 3) {
+				esm |= uint8(c.Intn(4)) | uint8(c.Intn(4))<<6
+			}
+			m.text = text
+			outs = append(outs, out{&smpp34.DeliverSm{Header: smpp.Header{ID: smpp.DELIVER_SM, Sequence: m.seq + 5000}, ESMClass: esm, SourceAddr: "8613800000000",
 				SmLength: uint8(len(text)), ShortMessage: []byte(text)}, false, m})
 		case 1:
 			outs = append(outs, out{&smgp30.SubmitResp{Header: smgp.NewHeader(0, smgp.CommandSubmitResp, m.seq), MsgID: m.idText}, true, m})
+			m.text = text[:min(len(text), 255)]
 			outs = append(outs, out{&smgp30.Deliver{Header: smgp.NewHeader(0, smgp.CommandDeliver, m.seq+5000), MsgID: string(c.Blob(10, "nonul")), IsReport: 1,
 				MsgLength: uint8(min(len(text), 255)), MsgContent: text[:min(len(text), 255)]}, false, m})
 		default:
@@ -377,6 +385,22 @@ func runReceipts(r *core.Run) {
 		}
 		pb.pdu.MsgContent = string(pb.live)
 	}
+	// ---- ordinary mobile-originated traffic on the same session: a subscriber forwards the very text of a receipt.
+	// It is a message, not a receipt (esm_class / IsReport say so) and must not be correlated.
+	if flavour != 2 && len(msgs) > 0 && c.Prob(1, 3) {
+		src := msgs[c.Intn(len(msgs))]
+		r.Probe("mo_with_receipt_text")
+		if flavour == 0 {
+			// bits 5..2: 0000 default, 0010 delivery acknowledgement, 0100 user acknowledgement, 0110 conversation abort, 1000 intermediate notification, and near misses of 0001
+			typ := []uint8{0x00, 0x08, 0x10, 0x18, 0x20, 0x0c, 0x14, 0x24, 0x3c, 0x05 &^ 0x04}[c.Intn(10)]
+			esm := typ | uint8(c.Intn(4)) | uint8(c.Intn(4))<<6
+			outs = append(outs, out{&smpp34.DeliverSm{Header: smpp.Header{ID: smpp.DELIVER_SM, Sequence: 9000}, ESMClass: esm, SourceAddr: "8613900000000",
+				SmLength: uint8(len(src.text)), ShortMessage: []byte(src.text)}, false, nil})
+		} else {
+			outs = append(outs, out{&smgp30.Deliver{Header: smgp.NewHeader(0, smgp.CommandDeliver, 9000), MsgID: string(c.Blob(10, "nonul")), IsReport: 0,
+				MsgLength: uint8(len(src.text)), MsgContent: src.text}, false, nil})
+		}
+	}
 	// ---- the network chooses the order of responses and receipts
 	if c.Prob(2, 3) {
 		for a := 0; a < len(outs)-1; a++ {
@@ -390,7 +414,7 @@ func runReceipts(r *core.Run) {
 	for _, o := range outs {
 		if o.isResp {
 			seenResp[o.m] = true
-		} else if !seenResp[o.m] {
+		} else if o.m != nil && !seenResp[o.m] {
 			r.Fault("receipt_overtook_response")
 		}
 		var b []byte
@@ -461,17 +485,38 @@ func runReceipts(r *core.Run) {
 				delete(waiting, fmt.Sprint(v.MsgID))
 			}
 		case *smpp34.DeliverSm:
+			// the ESME asks the library what kind of deliver this is
+			esm := int(v.ESMClass)
+			isRcpt, isLong := smpp.IsDeliveryReceipt(esm), smpp.IsLongMO(esm)
+			if want := (esm>>2)&0xf == 1; isRcpt != want {
+				r.Fail("C18", "classification", "smpp.IsDeliveryReceipt", fmt.Sprintf("type=%#x", (esm>>2)&0xf), "esm_class %#02x (message type bits %04b): IsDeliveryReceipt says %v", esm, (esm>>2)&0xf, isRcpt)
+			}
+			if want := esm&0xc0 == 0x40; isLong != want {
+				r.Fail("C18", "classification", "smpp.IsLongMO", fmt.Sprintf("features=%#x", esm>>6), "esm_class %#02x (feature bits %02b): IsLongMO says %v", esm, esm>>6, isLong)
+			}
+			if !isRcpt {
+				continue
+			}
 			var d smpp34.DeliveryReceipt
 			if p := r.Call("smpp34.ExtractDeliveryReceipt", func() { d, _ = smpp34.ExtractDeliveryReceipt(string(v.ShortMessage)) }); p != nil {
 				r.Fail("C18", "panic", p.Frame, p.Kind, "ExtractDeliveryReceipt(%q): %s", trunc(string(v.ShortMessage), 60), p.Value)
 				continue
 			}
+			if d.Valid() != (d.ID != "" && d.Stat != "") {
+				r.Fail("C18", "extract", "smpp34.DeliveryReceipt.Valid", "id-and-stat", "Valid()=%v for id %q stat %q (valid means: both present)", d.Valid(), trunc(d.ID, 20), d.Stat)
+			}
 			correlate(d.ID, map[string]string{"id": d.ID, "sub": d.Sub, "dlvrd": d.Dlvrd, "submit date": d.SubDate, "done date": d.DoneDate, "stat": d.Stat, "err": d.Err, "text": d.Text})
 		case *smgp30.Deliver:
+			if v.IsReport != 1 {
+				continue
+			}
 			var d smgp30.DeliveryReceipt
 			if p := r.Call("smgp30.ExtractDeliveryReceipt", func() { d, _ = smgp30.ExtractDeliveryReceipt(v.MsgContent) }); p != nil {
 				r.Fail("C18", "panic", p.Frame, p.Kind, "ExtractDeliveryReceipt(%q): %s", trunc(v.MsgContent, 60), p.Value)
 				continue
+			}
+			if d.Valid() != (d.ID != "" && d.Stat != "") {
+				r.Fail("C18", "extract", "smgp30.DeliveryReceipt.Valid", "id-and-stat", "Valid()=%v for id %q stat %q (valid means: both present)", d.Valid(), trunc(d.ID, 20), d.Stat)
 			}
 			correlate(d.ID, map[string]string{"id": d.ID, "sub": d.Sub, "dlvrd": d.Dlvrd, "submit date": d.SubDate, "done date": d.DoneDate, "stat": d.Stat, "err": d.Err, "text": d.Text})
 		case *cmpp20.PduDeliver:
